@@ -39,6 +39,22 @@ SEEDS = [
     "x = 10**100\ny = 1e400\nz = 0.1 + 2j\n",
 ]
 
+# lists with 10 children and more wherever a pass or a pattern keys on a child number (multi-digit path components)
+WIDE_SEEDS = [
+    "import " + ", ".join(f"m{j}" for j in range(12)) + "\n",
+    "from pkg import (\n" + "".join(f"    n{j} as p{j},\n" for j in range(13)) + ")\n",
+    "x = [" + ", ".join(str(j) for j in range(11)) + "]\ny = (" + ", ".join(f"-{j}" for j in range(1, 12)) + ")\n",
+    "f(" + ", ".join(f"a{j}" for j in range(12)) + ", *r, " + ", ".join(f"k{j}={j}" for j in range(11)) + ")\n",
+    "d = {" + ", ".join(f"'k{j}': -{j}" for j in range(10)) + "}\n",
+    " = ".join(f"t{j}" for j in range(11)) + " = None\n",
+    "".join(f"@d{j}\n" for j in range(10)) + "def f(" + ", ".join(f"p{j}" for j in range(11)) + ", /, " +
+    ", ".join(f"q{j}=u'{j}'" for j in range(10)) + "):\n" + "".join(f"    s{j} = -1\n" for j in range(11)),
+    "class C(" + ", ".join(f"B{j}" for j in range(10)) + "):\n    pass\n",
+    "try:\n    pass\n" + "".join(f"except E{j}:\n    pass\n" for j in range(10)),
+    "a < " + " < ".join(f"b{j}" for j in range(11)) + "\n",
+    "g = lambda " + ", ".join(f"v{j}" for j in range(10)) + ", /: ...\n",
+]
+
 # deliberately adversarial (the first two exhibited the findings F09 / F11, now repaired; the others exhibit F15a-d)
 ADVERSARIAL_SEEDS = [
     "@d\nasync def f():\n    pass\n",
@@ -164,7 +180,7 @@ class Checker:
         r = self.drv.call("c15.spec", tree=ex)
         spec = r["lines"]
         self.last_wf = (r["wf_unquote"], r["wf_kinds"], r["wf_posonly"], r["wf_alias"], r["wf_stages4"], r["wf_stages6"],
-                        r["stage6_eq_tweak"])
+                        r["stage6_eq_tweak"], r["repr_is_dumpNoCtx"])
         return tree, impl, model, spec
 
     def fails(self, src):
@@ -203,6 +219,17 @@ class Checker:
         ctx.dist("hypothesis wfStages4 (first four passes) " + ("holds" if self.last_wf[4] else "FAILS") + " on the real tree")
         ctx.dist("hypothesis wfStages6 (Tree.WF of C15_tweaks_full) " + ("holds" if self.last_wf[5] else "FAILS") + " on the real tree")
         ctx.dist("stage6 = tweak (staged tweaks vs one-shot specification) " + ("holds" if self.last_wf[6] else "FAILS") + " on the real tree")
+        ctx.dist("hypothesis reprsAreDumps (exported hash source = dumpNoCtx of the node) " +
+                 ("holds" if self.last_wf[7] else "FAILS") + " on the real tree")
+        if not self.last_wf[7]:
+            ctx.broken.append("corr:dumpNoCtx-vs-exported-repr")
+            if len(ctx.notes) < 5:
+                ctx.notes.append("the exported hash source of some expression is not dumpNoCtx of its node: " + src[:300])
+        if not self.last_wf[5] and not (fe.quirk_features(tree) - {"async-def", "bytes-repr-double-quoted"}):
+            # Tree.WF fails although the program has none of the adversarial literals: a lead worth looking at
+            ctx.dist("LEAD: wfStages6 fails on a non-adversarial tree")
+            if len(ctx.notes) < 5:
+                ctx.notes.append("lead: wfStages6 fails on a non-adversarial tree: " + src[:300])
         if self.last_wf[5] and not self.last_wf[6] and len(ctx.notes) < 5:
             ctx.notes.append("stage6 differs from tweak on a well-formed tree: " + src[:200])
             ctx.broken.append("corr:stage6-vs-tweak")
@@ -311,18 +338,27 @@ def pass_pools():
 
     pools = {
         "suppress_kinds": ("chars", cat(["/kind=", "a", "/", "kind", "=", "'x'"], 4), 1),
-        "suppress_posonlyargs": ("chars", cat(["/args/posonlyargs/_length=", "a", "/args", "1", "23", "=", "x/"], 4), 1),
+        "suppress_posonlyargs": ("chars", cat(["/args/posonlyargs/_length=", "a", "/args", "1", "23", "=", "x/", "9", "10", "100"], 4), 1),
         "unquote": ("chars", cat(["=", "'", '"', "a", "b'", "/s"], 5), 1),
         "suppress_alias_pos": ("lines", ["/a/_type=alias", "/_type=alias", "/a/_pos=1:", "_pos=1", "a_pos=", "a_pos=b",
-                                         "/a/name=x", "/a/_type=aliasx", "", "/a/_type=alias/_pos=3"], 4),
+                                         "/a/name=x", "/a/_type=aliasx", "", "/a/_type=alias/_pos=3",
+                                         "/b/names/9/_type=alias", "/b/names/9/_pos=1:1-0-9-",
+                                         "/b/names/10/_type=alias", "/b/names/10/_pos=1:1-0-10-",
+                                         "/b/names/11/_type=alias", "/b/names/99/_type=alias", "/b/names/99/_pos=2:1-0-99-",
+                                         "/b/names/100/_type=alias", "/b/names/100/_pos=3:1-0-100-"], 3),
         "backport_all_constants": ("lines", ["/a/_type=Constant", "/_type=Constant", "/a/_hash=0x1", "/a/value=1",
                                              "/a/value='s'", "/a/value=b'x'", "/a/value=Ellipsis", "/a/value=",
                                              "/value=None", "", "/a/b/_type=Constant", "/a/b/value=True",
-                                             "/a/value=b\"q\"", "/a/valuex=2", "/a/value=\"d\""], 3),
+                                             "/a/value=b\"q\"", "/a/valuex=2", "/a/value=\"d\"",
+                                             "/b/1/_type=Constant", "/b/1/value=1", "/b/10/_type=Constant", "/b/10/_pos=1:1-10-",
+                                             "/b/10/value=2", "/b/100/value=3", "/b/9/value=4", "/b/99/_type=Constant"], 3),
         "simplify_negative_literals": ("lines", ["/a/_type=UnaryOp", "/a/_hash=1", "/a/op/_type=USub", "/a/op/_type=Not",
                                                  "/a/operand/_type=Num", "/a/operand/n=5", "/a/operand/n=",
                                                  "/a/operand/operand/n=7", "", "/_type=UnaryOp", "/op/_type=USub",
-                                                 "/operand/n=1", "/a/operand/_type=UnaryOp", "/a/operand/op/_type=USub"], 3),
+                                                 "/operand/n=1", "/a/operand/_type=UnaryOp", "/a/operand/op/_type=USub",
+                                                 "/b/1/_type=UnaryOp", "/b/10/_type=UnaryOp", "/b/10/op/_type=USub",
+                                                 "/b/10/operand/n=9", "/b/1/operand/n=11", "/b/100/operand/n=99",
+                                                 "/b/11/op/_type=USub"], 3),
     }
     return pools
 
@@ -441,6 +477,9 @@ def run(ctx):
             sources.append(src)
         for i, src in enumerate(ADVERSARIAL_SEEDS):
             ck.case("adversarial-seeds", f"adv{i}", src)
+        for i, src in enumerate(WIDE_SEEDS):
+            ck.case("wide-seeds", f"wide{i}", src)
+            sources.append(src)
         n_gen = 350 if ctx.tier == "quick" else 5500
         rejected = 0
         for depth, adv, share in ((3, 0.0, 0.35), (4, 0.15, 0.45), (6, 0.3, 0.2)):
@@ -474,20 +513,20 @@ def run(ctx):
         "or one sequence of flattenings, or one token-level input of a line-level pass; distinct non-trivial = "
         "distinct flat AST texts of at least 10 lines / distinct orders with repetitions / inputs changed by the pass"
     )
-    ctx.cov["proved"] = [
+    ctx.cov["proved"] = sorted(t.split(".")[-1] for t in ctx.cov.get("theorems", {}))
+    ctx.cov["proved_summary"] = [
         "C15_preorder_once (dump = pre-order enumeration; every node, list, scalar exactly once under its address and names)",
         "C15_path_code / C15_path_nesting (the `_pos` path is a prefix-free code; prefix ⇔ nesting)",
-        "C15_hash (same `_hash` ⇔ same context-free repr within one flattening)",
-        "C15_stateless / C15_sequence (result independent of the factory state; any sequence of flattenings)",
-        "C15_flatten_eq (flatten_ast = post-processing of the pure dump)",
-        "C15_tweak_{kinds,alias,posonly,backport,neg,unquote}_partial (each of the six passes is a tree-level tweak, under "
-        "local clauses), C15_tweaks_full (the six composed: postProcess (dump t) = dump (stage6 t) under wfStages6), "
-        "C15_flatten_tweaked (the same for what flatten_ast returns)",
-        "C15_async_counterexample, C15_bytes_counterexample, C15_kind_in_string_counterexample (witnesses of the recorded findings)",
+        "C15_hash (same `_hash` ⇔ same context-free repr within one flattening), C15_hash_structural (same expression up "
+        "to load/store context ⇒ same `_hash`, for hash sources that are the structural dump dumpNoCtx)",
+        "C15_stateless / C15_sequence / C15_reset_needed (the reset step makes the result independent of the factory state)",
+        "C15_tweak_*_partial, C15_tweaks_full, C15_flatten_tweaked (the six passes are tree-level tweaks; composed; on flatten_ast)",
+        "C15_escape_at_dump, C15_escapePos_no_pos, C15_escaped_value_not_poslike (escaped terminal values)",
     ]
     ctx.cov["exercised_only"] = [
-        "that the exported repr of an expression is equal for two expressions iff they are the same expression up to "
-        "load/store context (checked by c15.spec: hashes recomputed from a structural canonical form)",
+        "the converse of C15_hash_structural: two expressions that differ (up to load/store context) get different hashes — "
+        "it needs the injectivity of Python's repr-based dump text (checked by c15.spec: hashes recomputed from a "
+        "length-prefixed canonical form); that the exported hash source is dumpNoCtx of the node is checked on every real tree",
         "ast.parse itself (tree and line numbers are inputs of the model)",
         "that the staged tweaks `stage6` equal the one-shot specification `tweak` (kinds by real kind): compared by the "
         "driver on every real tree (stage6_eq_tweak), and c15.spec = dump of `tweak`",
